@@ -19,20 +19,24 @@
     D13 `full_sync_exact_counter_d13`  pod chains / hooks of vanished pods (or old addresses) are never collected;
     D17 `full_sync_counter_d17`        a stale policy chain referenced by a pod chain makes the policy batch fail
                                         atomically; with a new policy selecting the pod the sync never converges;
-    D21 `full_sync_counter_d21`        an ipset entry whose options change is re-added and then deleted.
+  (D21, an ipset entry whose options change being re-added and then deleted, is FIXED in /repo (d42b414): the model
+   follows the regenerated fact `createIPSetKeepsRekeyedEntries`; `full_sync_counter_d21` is now a theorem about the
+   PRE-fix variant `fullSyncWith false`, `ipset_entries_exact_partial` the post-fix statement.)
   What is PROVED in their place, for ALL prior kernel states:
     frame_foreign (full), frame_foreign_steps;
     policy_chains_exact_partial     a policy batch that reports no failure installs exactly the compiled GLX-PLCY-*;
     pod_chain_exact_partial         a SyncPodChains call that reports no failure leaves exactly the compiled GLX-POD
                                     chain and the hook rule(s) of the pod;
     policy_chains_idempotent_partial  two successful policy batches in a row install the same chains;
+    ipset_entries_exact_partial     one createIPSet step (current source) leaves exactly the compiled entries, options
+                                    included, from any prior content of the set;
     no_dangling_policy_batch_partial  syncRules never submits a rule naming a missing chain / set: its only possible
                                     failures are the busy -X (D17) and the type clash of `ipset create`.
-  NOT proved (monitored on the real dumps by harness c15 only): exactness of the ipset ENTRIES, the end state of the
+  NOT proved (monitored on the real dumps by harness c15 only): the end state of the
   pod chains after the whole loop over the pods (non-interference between pods), absence of other GLX-POD chains
   (false: D13), idempotence of the whole state, no-dangling for the pod batches.
 -/
-import Galaxy.Lemmas.PolicySyncDangling
+import Galaxy.Lemmas.PolicySyncSets
 
 namespace Galaxy.Props.C15
 open Galaxy.Policy
@@ -163,17 +167,44 @@ theorem full_sync_counter_d17 :
     chainExists r.1.tbl (.plcy "HNJXEZLOMFWWK3TU") = false ∧ chainExists r.1.tbl (.plcy "GZ6RV4PA44SL5TUX") = true := by
   decide
 
-/-- D21 (corpus/C15/d21.ops): the except 10.0.1.0/24 of an ipBlock becomes the cidr of the same rule: after the
-    sync the hash:net set is EMPTY (the entry was re-added, then deleted by key as stale); a second sync adds it. -/
+/-- D21 as it was BEFORE the fix d42b414 (variant `keep = false` of the model): the except 10.0.1.0/24 of an ipBlock
+    becomes the cidr of the same rule; after the sync the hash:net set is EMPTY (the entry was re-added, then deleted
+    by key as stale) and only a second sync adds it.  corpus/C15/d21.ops replays the transition on the real code. -/
 theorem full_sync_counter_d21 :
+    let p1 := pol "x" "GZ6RV4PA44SL5TUX" 80 [.block ⟨ip4 10 0 0 0, 8⟩ [⟨ip4 10 0 1 0, 24⟩]]
+    let p2 := pol "x" "GZ6RV4PA44SL5TUX" 80 [.block ⟨ip4 10 0 1 0, 24⟩ []]
+    let k1 := (fullSyncWith false k0 cA [p1] "node1").1
+    let r := fullSyncWith false k1 cA [p2] "node1"
+    r.2 = [] ∧ setEntries r.1.sets ⟨.snet, 0, "GZ6RV4PA44SL5TUX"⟩ = some [] ∧
+    setEntries (fullSyncWith false r.1 cA [p2] "node1").1.sets ⟨.snet, 0, "GZ6RV4PA44SL5TUX"⟩ =
+      some [.net ⟨ip4 10 0 1 0, 24⟩ false] := by
+  decide
+
+/-- the current source has the guard (regenerated from createIPSet on every run) … -/
+theorem fact_createIPSet_keeps_rekeyed_entries : createIPSetKeepsRekeyedEntries = true := by decide
+
+/-- … and with it the same transition is exact at once and idempotent (regression of D21, corpus/C15/d21.ops) -/
+theorem d21_fixed :
     let p1 := pol "x" "GZ6RV4PA44SL5TUX" 80 [.block ⟨ip4 10 0 0 0, 8⟩ [⟨ip4 10 0 1 0, 24⟩]]
     let p2 := pol "x" "GZ6RV4PA44SL5TUX" 80 [.block ⟨ip4 10 0 1 0, 24⟩ []]
     let k1 := (fullSync k0 cA [p1] "node1").1
     let r := fullSync k1 cA [p2] "node1"
-    r.2 = [] ∧ setEntries r.1.sets ⟨.snet, 0, "GZ6RV4PA44SL5TUX"⟩ = some [] ∧
-    setEntries (fullSync r.1 cA [p2] "node1").1.sets ⟨.snet, 0, "GZ6RV4PA44SL5TUX"⟩ =
-      some [.net ⟨ip4 10 0 1 0, 24⟩ false] := by
+    r.2 = [] ∧ setEntries r.1.sets ⟨.snet, 0, "GZ6RV4PA44SL5TUX"⟩ = some [.net ⟨ip4 10 0 1 0, 24⟩ false] ∧
+    (fullSync r.1 cA [p2] "node1").1.sets = r.1.sets := by
   decide
+
+/-- "the galaxy-owned ipsets … are exactly those derived … regardless of what … existed before", per set and per
+    createIPSet step of the CURRENT source: from ANY prior content of an existing set of the right type (distinct
+    keys, as in a kernel set), the step leaves exactly the compiled entries, options included — provided the
+    compiled entries do not carry one key with two different options. -/
+theorem ipset_entries_exact_partial (sets sets' : List IpSet) (s old : IpSet)
+    (hfind : sets.find? (·.name == s.name) = some old) (hold : (old.entries.map Entry.key).Nodup)
+    (hnew : KeysConsistent s.entries) (h : syncOneSet sets s = .ok sets') :
+    ∃ es, setEntries sets' s.name = some es ∧ ∀ y, y ∈ es ↔ y ∈ s.entries := by
+  have hk : syncOneSet = syncOneSetWith true := by
+    unfold syncOneSet; rw [show G.createIPSetKeepsRekeyedEntries = true from fact_createIPSet_keeps_rekeyed_entries]
+  rw [hk] at h
+  exact syncOneSet_entries_exact sets sets' s old hfind hold hnew h
 
 /-! ## facts of the source the model relies on -/
 
